@@ -8,7 +8,13 @@ import MelModel.Merkle
 import MelModel.Genesis
 import MelModel.VM.Std
 import MelModel.VM.Cost
+import MelModel.Stdcode
 open Mel Mel.VM Mel.Proto
+
+/-- the facts the harness supplies next to a transaction (serialised length, decoded stake document, decoded difficulty)
+    must be the ones the model computes from the transaction's content -/
+def suppliedMismatch (txs : List Tx) : Option String :=
+  (txs.find? fun tx => !Stdcode.suppliedAgrees tx).map fun tx => s!"stdcode-mismatch {hexOfBytes tx.hash}"
 
 /-! ### VM-level operations -/
 
@@ -245,6 +251,7 @@ def handleBatch (w : DWorld) (src dst lasthdr orc : String) (txs : List String) 
     match txs?, fallback with
     | some txs, some (fb, w1) =>
       let env := mkEnv w1 o none {} {}
+      if let some m := suppliedMismatch txs then (w1, m) else
       match applyBatch env st txs fb with
       | .ok st' => ({ w1 with unsealed := (dst, st') :: w1.unsealed }, s!"ok {dumpState st'}")
       | .reject e => (w1, s!"err {e.text}")
@@ -286,6 +293,7 @@ def handleBlock (w : DWorld) (src dst proots phash roots hh hdr action orc : Str
       let env := mkEnv w1 o (some ss.st) pr cr
       let blk : Block := { header := bh, transactions := txs, action := a }
       let _ := hh
+      if let some m := suppliedMismatch txs then (w1, m) else
       match applyBlock env ss blk with
       | .ok ns => ({ w1 with sealed := (dst, ns) :: w1.sealed }, s!"ok {dumpState ns.st}")
       | .reject e => (w1, s!"err {e.text}")
@@ -386,6 +394,29 @@ def handleDp (w : DWorld) (name idx mode : String) : String :=
     | _ => "bad-op"
   | _, _ => "bad-op"
 
+/-! ### serialisation glue (MelModel/Stdcode.lean) -/
+
+def handleSdoc (h : String) : String :=
+  match bytesOfHex h with
+  | none => "bad-op"
+  | some bs =>
+    match Stdcode.decodeStakeDoc bs with
+    | some d => s!"ok {stakeDocText d}"
+    | none => "err"
+
+def handlePowd (h : String) : String :=
+  match bytesOfHex h with
+  | none => "bad-op"
+  | some bs =>
+    match Stdcode.decodePow bs with
+    | some (d, proof) => s!"ok {d} {hexOrDash proof}"
+    | none => "err"
+
+def handleTxlen (t : String) : String :=
+  match parseTx t with
+  | none => "bad-op"
+  | some tx => s!"len {Stdcode.txLen tx}"
+
 def handleLine (w : DWorld) (line : String) : DWorld × String :=
   match line.trimAscii.toString.splitOn " " with
   | ["dec", h] => (w, handleDec h)
@@ -394,6 +425,9 @@ def handleLine (w : DWorld) (line : String) : DWorld × String :=
   | ["std", which, pk] => (w, handleStd which pk)
   | ["run", p, h, o] => (w, handleRun p h o)
   | ["fm", m, d, t] => (w, handleFm m d t)
+  | ["sdoc", h] => (w, handleSdoc h)
+  | ["powd", h] => (w, handlePowd h)
+  | ["txlen", t] => (w, handleTxlen t)
   | ["env", tx, cid, cdh, idx, hdr] => (w, handleEnv tx cid cdh idx hdr)
   | ["reset"] => ({}, "ok")
   | ["mt", name, entries] => handleMt w name entries
